@@ -1,7 +1,7 @@
 (* Props/C10.v — C10: the JSON parser (json/parse.go).
    Statements only; each is closed by [exact] of a lemma proved in coq/theories/Json/. *)
 From Verif Require Import Common.Base Common.Lx Json.Model Json.Lex Json.Spec Json.Grammar Json.Proofs Json.Trace
-  Json.Accept Json.Sticky.
+  Json.AcceptLex Json.Accept Json.Sticky Json.Rejects.
 
 (* MAIN THEOREM.  Every document of the RFC 8259 grammar (Json/Grammar.v: whitespace explicit at the six
    structural positions; all escape and number forms) is parsed to the end of the input without a parse
@@ -99,3 +99,72 @@ Theorem json_parse_error_sticky_refuted :
                map (fun up => err_kind (snd up)) tr = [0; 2; 2].
 Proof. exact json_parse_error_sticky_refuted_proof. Qed.
 Print Assumptions json_parse_error_sticky_refuted.
+
+(* ---- json_rejects_listed: four lemmas over arbitrary contexts.  The context is any parser p whose cursor
+   has consumed a, holds the lexeme tok, and faces the remaining input written in the hypothesis; lead is
+   what one call skips before the token: whitespace, or whitespace , whitespace inside an array/object
+   (lead_ok).  rejected_at p off: Next returns ErrorGrammar and no unit, records a parse error at offset
+   off and leaves the state stack unchanged. ---- *)
+
+(* a closing bracket that does not match the innermost open container, or with no container open
+   (json_nesting relates State() to the open containers) *)
+Theorem json_rejects_closer :
+  forall p a tok lead c r nd state,
+    cur3 (pz p) a tok (lead ++ c :: r) -> lead_ok p lead nd -> top (pst p) = Some state ->
+    (c = 125 /\ state <> S_ObjectKey) \/ (c = 93 /\ state <> S_Array) ->
+    rejected_at p (len a + len tok + len lead).
+Proof. exact rejects_closer_proof. Qed.
+Print Assumptions json_rejects_closer.
+
+(* needComma holds after every unit that completes a value ... *)
+Theorem json_need_after_value :
+  forall d p u p', json_inv d p -> next p = Some (u, p') -> completes_value (fst u) (pst p') -> pneed p' = true.
+Proof. exact need_after_value_proof. Qed.
+Print Assumptions json_need_after_value.
+
+(* ... and then anything other than , ] } or the end of the input is a parse error at that byte *)
+Theorem json_rejects_missing_comma :
+  forall p a tok w c r state,
+    cur3 (pz p) a tok (w ++ c :: r) -> ws w -> pneed p = true -> top (pst p) = Some state ->
+    is_ws c = false -> c <> 44 -> c <> 125 -> c <> 93 -> c <> 0 ->
+    rejected_at p (len a + len tok + len w).
+Proof. exact rejects_missing_comma_proof. Qed.
+Print Assumptions json_rejects_missing_comma.
+
+(* in key position: a string followed (after whitespace) by anything but the colon, also the end of input *)
+Theorem json_rejects_missing_colon :
+  forall p a tok lead k w2 s2 st,
+    cur3 (pz p) a tok (lead ++ k ++ w2 ++ s2) -> lead_ok p lead false -> pst p = S_ObjectKey :: st ->
+    jstring k -> ws w2 -> is_ws (hd0 s2) = false -> hd0 s2 <> 58 ->
+    rejected_at p (len a + len tok + len lead + len k + len w2).
+Proof. exact rejects_missing_colon_proof. Qed.
+Print Assumptions json_rejects_missing_colon.
+
+(* in key position: anything that is not a string, EXCEPT an opening bracket (next theorem), is a parse
+   error at that byte ( } closes the object and , is a separator: not keys ) *)
+Theorem json_rejects_nonstring_key_partial :
+  forall p a tok lead s2 nd st,
+    cur3 (pz p) a tok (lead ++ s2) -> lead_ok p lead nd -> pst p = S_ObjectKey :: st ->
+    is_ws (hd0 s2) = false ->
+    hd0 s2 <> 34 -> hd0 s2 <> 44 -> hd0 s2 <> 125 -> hd0 s2 <> 123 -> hd0 s2 <> 91 ->
+    rejected_at p (len a + len tok + len lead).
+Proof. exact rejects_nonstring_key_proof. Qed.
+Print Assumptions json_rejects_nonstring_key_partial.
+
+(* the missing part is FALSE of the code: an array or object in key position is returned as units; the
+   invalid document  { [ 1 ] }  is parsed to the end of the input with Err() = io.EOF *)
+Theorem json_rejects_container_key_refuted :
+  exists d units final, valid_b d = false /\ drive (S (length d)) (json_init d) = Done units final /\
+    err_kind final = 1 /\ map sg units = [G_StartObject; G_StartArray; G_Number; G_EndArray; G_EndObject].
+Proof. exact nonstring_key_container_refuted_proof. Qed.
+Print Assumptions json_rejects_container_key_refuted.
+
+(* json_error_offset, second half: a byte that cannot start a token is reported at exactly its offset, in
+   every context (any stack, any needComma) *)
+Theorem json_error_at_illegal_byte :
+  forall p a tok lead c r nd state,
+    cur3 (pz p) a tok (lead ++ c :: r) -> lead_ok p lead nd -> top (pst p) = Some state -> prd p = 0 ->
+    illegal_start c ->
+    rejected_at p (len a + len tok + len lead).
+Proof. exact error_at_illegal_byte_proof. Qed.
+Print Assumptions json_error_at_illegal_byte.
